@@ -2,6 +2,8 @@
 mod common;
 mod gen;
 mod c13;
+mod c03;
+mod frontends;
 
 use common::Args;
 use serde_json::Value;
@@ -54,6 +56,7 @@ fn main() {
     std::panic::set_hook(Box::new(|_| {}));
     match argv[1].as_str() {
         "c13" => c13::run(&args, &corpus),
+        "c03" => c03::run(&args, &corpus),
         p => {
             eprintln!("unknown property {p}");
             std::process::exit(2);
